@@ -1,9 +1,12 @@
 #!/bin/bash
-# mkscratch.sh <dir> [patch.diff]: make a scratch copy of /repo's working tree (mtimes preserved,
-# so cargo rebuilds only what the patch touches), optionally apply a patch. Remove with rm -rf.
+# mkscratch.sh <dir> [patch.diff]: make / refresh a scratch copy of /repo's working tree. On first
+# creation mtimes are preserved (so a target dir seeded from the main one rebuilds only what a
+# patch touches); on refresh, files that changed are touched (cargo's fingerprints are mtime based).
 set -e
 d="${1:?dir}"
+fresh=0; [ -d "$d" ] || fresh=1
 mkdir -p "$d"
-rsync -a --exclude /target --exclude /.git --exclude /.verif-target --exclude /.verif-out /repo/ "$d/"
+changed=$(rsync -ai --delete --exclude /target --exclude /.git --exclude /.verif-target --exclude /.verif-out /repo/ "$d/" | awk '$1 ~ /^>f/ {print $2}')
+if [ $fresh -eq 0 ] && [ -n "$changed" ]; then ( cd "$d" && echo "$changed" | xargs -r touch ); fi
 if [ -n "${2:-}" ]; then ( cd "$d" && git apply --unsafe-paths "$2" 2>/dev/null || patch -p1 < "$2" ); fi
 echo "$d"
